@@ -214,6 +214,7 @@ def tlc(spec_dir, module, cfg, consts=None, workers=8, timeout=600, edges=True, 
             rc = -9
     r.wall = time.time() - t0
     keep = []
+    flagged = []
     nedges = 0
     with open(outpath, errors="replace") as f:
         for line in f:
@@ -226,8 +227,10 @@ def tlc(spec_dir, module, cfg, consts=None, workers=8, timeout=600, edges=True, 
                     r.inits.append(json.loads(json.loads(line)[5:]))
             else:
                 keep.append(line)
+                if ("is violated" in line or "was violated" in line or "were violated" in line or "Deadlock reached" in line) and len(flagged) < 20:
+                    flagged.append(line)
     r.nedges = nedges
-    r.out = "".join(keep[-400:]) if not keep_out else "".join(keep)
+    r.out = "".join(flagged) + ("".join(keep[-400:]) if not keep_out else "".join(keep))
     if rc == -9:
         raise Broken("TLC timed out after %ss on %s/%s" % (timeout, module, cfg))
     m = re.search(r"(\d+) states generated, (\d+) distinct states found", r.out)
@@ -239,7 +242,8 @@ def tlc(spec_dir, module, cfg, consts=None, workers=8, timeout=600, edges=True, 
     m = re.search(r"Invariant (\S+) is violated", r.out)
     if m:
         r.violation = m.group(1)
-    m2 = re.search(r"Action property (\S+) is violated", r.out) or re.search(r"Temporal properties were violated", r.out)
+    m2 = (re.search(r"Action property (\S+) is violated", r.out) or re.search(r"Temporal property (\S+) was violated", r.out)
+          or re.search(r"Temporal properties were violated", r.out))
     if m2 and not r.violation:
         r.violation = m2.group(1) if m2.lastindex else "temporal"
     if "Deadlock reached" in r.out and not r.violation:
@@ -316,7 +320,7 @@ class Graph:
                 if t not in parent:
                     parent[t] = ei
                     dq.append(t)
-        uncovered = set(i for i, e in enumerate(self.edges) if e[0] in parent)
+        uncovered = set(i for n, eis in self.succ.items() if n in parent for i in eis)
         order = sorted(uncovered)
         rnd.shuffle(order)
         if prefer:
